@@ -400,7 +400,7 @@ def py_repr(ex, v):
             inner = py_repr(ex, Sym(k.inner, k.val(v.t)))
             return Sym(K.Str, z3.If(k.is_none(v.t), z3.StringVal('None'), str_t(ex, inner)))
         if k == K.Dyn:
-            ex.run.assume(dyn_repr_axioms(ex, v.t))
+            ex.run.axiom(dyn_repr_axioms(ex, v.t))
             return Sym(K.Str, dyn_repr(ex, v.t))
         if isinstance(k, K.Rec) and k.cls:
             ci = ex.table.cls(k.cls)
@@ -628,22 +628,22 @@ def dyn_eq(ex, a, b):
     and ReprStr compares as its value.  The numeric cross-type part is an uninterpreted relation
     (A-repr/A-num); structural equality implies it."""
     f = ufn('dyn_pyeq', [a.sort(), b.sort()], z3.BoolSort())
-    ex.run.assume(z3.Implies(a == b, f(a, b)))
+    ex.run.axiom(z3.Implies(a == b, f(a, b)))
     J = K.dyn_sorts()[0]
     same_ctor = z3.Or(*[z3.And(getattr(J, 'is_' + c)(a), getattr(J, 'is_' + c)(b))
                         for c in ('JNone', 'JStr', 'JList', 'JDict', 'JPath', 'JObj', 'JInst', 'JOther')])
     # for constructors without cross-type equality, == is structural (objects: identity/opaque __eq__ excluded)
     struct = z3.Or(*[z3.And(getattr(J, 'is_' + c)(a), getattr(J, 'is_' + c)(b)) for c in ('JNone', 'JStr', 'JPath')])
-    ex.run.assume(z3.Implies(struct, f(a, b) == (a == b)))
+    ex.run.axiom(z3.Implies(struct, f(a, b) == (a == b)))
     for c in ('JNone',):
-        ex.run.assume(z3.Implies(getattr(J, 'is_' + c)(a) != getattr(J, 'is_' + c)(b), z3.Not(f(a, b))))
+        ex.run.axiom(z3.Implies(getattr(J, 'is_' + c)(a) != getattr(J, 'is_' + c)(b), z3.Not(f(a, b))))
     # str vs non-str never equal (ReprStr is a str)
     sa = z3.Or(J.is_JStr(a), J.is_JRStr(a))
     sb = z3.Or(J.is_JStr(b), J.is_JRStr(b))
-    ex.run.assume(z3.Implies(sa != sb, z3.Not(f(a, b))))
+    ex.run.axiom(z3.Implies(sa != sb, z3.Not(f(a, b))))
     va = z3.If(J.is_JStr(a), J.jstr(a), J.jrs_value(a))
     vb = z3.If(J.is_JStr(b), J.jstr(b), J.jrs_value(b))
-    ex.run.assume(z3.Implies(z3.And(sa, sb), f(a, b) == (va == vb)))
+    ex.run.axiom(z3.Implies(z3.And(sa, sb), f(a, b) == (va == vb)))
     return f(a, b)
 
 
